@@ -185,10 +185,15 @@ def decide_one(pid, tmpl, tier='quick', seed=0):
     failed_labels = {}
     failed_safety = {}
     vac_hit = set()
+    twin_failed = set()
     for f in cl['failures']:
         if f['twin']:
             if f['label'] and f['label'].startswith('VAC.'):
                 vac_hit.add(f['label'])
+            elif f.get('owner'):
+                # an earlier failure inside the twin (e.g. a failed proof hint) masks its `ensures false` clause: the twin did not verify,
+                # and the same failure is reported for the real function
+                twin_failed.add(f['owner'])
             continue
         if f['label'] and not f['label'].startswith('VAC.'):
             failed_labels.setdefault(f['label'], []).append(f)
@@ -196,7 +201,7 @@ def decide_one(pid, tmpl, tier='quick', seed=0):
             key = (f['owner'] or 'lemma@line%d' % f['line'])
             failed_safety.setdefault(key, []).append(f)
     # vacuity: every twin must fail on its VAC clause
-    vac_missing = [n for (n, a, b, tw) in twins if ('VAC.' + n[:-5]) not in vac_hit]
+    vac_missing = [n for (n, a, b, tw) in twins if ('VAC.' + n[:-5]) not in vac_hit and n not in twin_failed]
     if vac_missing:
         raise Undecided('vacuity guard: twin(s) with `ensures false` verified: %s (contradictory precondition or unreachable exit)' % vac_missing)
     # proof fns (lemmas) that appear in the SMT breakdown and are not extracted fns
